@@ -116,3 +116,72 @@ impl Validate for SpyValidator {
         if self.verdict { Ok(()) } else { Err(PasetoError::ClaimsError) }
     }
 }
+
+/// A footer type whose decoding is NOT injective (trailing ASCII spaces are insignificant, as whitespace is
+/// in JSON): two different wire footers decode to the same value.  Authentication must still be over the
+/// wire bytes.
+#[derive(Clone, Debug, PartialEq, Eq)]
+pub struct NormFooter(pub Vec<u8>);
+
+impl Footer for NormFooter {
+    fn encode(&self, mut w: impl WriteBytes) -> Result<(), Box<dyn Error + Send + Sync>> {
+        log(Spy::FooterEncode { ok: true });
+        w.write(&self.0);
+        Ok(())
+    }
+    fn decode(f: &[u8]) -> Result<Self, Box<dyn Error + Send + Sync>> {
+        let mut v = f.to_vec();
+        while v.last() == Some(&b' ') {
+            v.pop();
+        }
+        Ok(NormFooter(v))
+    }
+}
+
+/// harness view of a footer value
+pub trait HFooter: Footer + Sized {
+    fn make(b: &[u8]) -> Self;
+    fn value_bytes(&self) -> Vec<u8>;
+}
+impl HFooter for SpyFooter {
+    fn make(b: &[u8]) -> Self {
+        SpyFooter(b.to_vec())
+    }
+    fn value_bytes(&self) -> Vec<u8> {
+        self.0.clone()
+    }
+}
+impl HFooter for NormFooter {
+    fn make(b: &[u8]) -> Self {
+        NormFooter(b.to_vec())
+    }
+    fn value_bytes(&self) -> Vec<u8> {
+        self.0.clone()
+    }
+}
+
+/// JSON claims through paseto-json's own Json<T> wrapper, with invocation recording.
+#[derive(Clone, Debug, PartialEq)]
+pub struct SpyJson(pub serde_json::Value);
+
+impl Payload for SpyJson {
+    const SUFFIX: &'static str = "";
+    fn encode(self, w: impl WriteBytes) -> Result<(), Box<dyn Error + Send + Sync>> {
+        log(Spy::ClaimsEncode { ok: true });
+        paseto_json::Json(self.0).encode(w)
+    }
+    fn decode(p: &[u8]) -> Result<Self, Box<dyn Error + Send + Sync>> {
+        let r = <paseto_json::Json<serde_json::Value> as Payload>::decode(p);
+        log(Spy::Decode { bytes: p.to_vec(), ok: r.is_ok() });
+        r.map(|j| SpyJson(j.0))
+    }
+}
+
+pub struct AcceptJson;
+impl Validate for AcceptJson {
+    type Claims = SpyJson;
+    fn validate(&self, claims: &SpyJson) -> Result<(), PasetoError> {
+        log(Spy::Validate { claims: serde_json::to_vec(&claims.0).unwrap(), verdict: true });
+        Ok(())
+    }
+}
